@@ -189,8 +189,15 @@ def per_upstream_fields(cls, model=None):
         recs = [r for r in SymEval(model, cls).run(init) if not r.raised]
     except AnalysisError:
         return out
-    def is_ups(e):
-        # the inputs themselves, or a sequence built from them ((lossless,) + upstreams)
+    def is_ups(e, depth=0):
+        # the inputs themselves, a sequence built from them ((lossless,) + upstreams), or a selection of them
+        # ([u for u in upstreams if isinstance(u, Stream)], list(upstreams))
+        if depth > 3:
+            return False
+        if isinstance(e, (ast.ListComp, ast.GeneratorExp, ast.SetComp)) and len(e.generators) == 1:
+            return is_ups(e.generators[0].iter, depth + 1)
+        if isinstance(e, ast.Call) and isinstance(e.func, ast.Name) and e.func.id in ('list', 'tuple', 'sorted', 'enumerate', 'reversed') and len(e.args) == 1:
+            return is_ups(e.args[0], depth + 1)
         return any(isinstance(x, ast.Name) and x.id in ups for x in ast.walk(e)) and not any(
             isinstance(x, (ast.Call, ast.Subscript)) for x in ast.walk(e))
 
@@ -221,6 +228,9 @@ def per_upstream_fields(cls, model=None):
             for n in ast.walk(loop):
                 if isinstance(n, ast.Subscript) and isinstance(n.ctx, ast.Store) and isinstance(n.value, ast.Name):
                     filled.add(n.value.id)
+                if isinstance(n, ast.Subscript) and isinstance(n.ctx, ast.Store) and self_field(n) and self_field(n) != 'upstreams' \
+                        and not isinstance(n.slice, ast.Constant):
+                    out.setdefault(self_field(n), n)        # self.f[<input>] = ... , once per input
                 if isinstance(n, ast.Call) and isinstance(n.func, ast.Attribute) and isinstance(n.func.value, ast.Name) \
                         and n.func.attr in ('setdefault',):
                     filled.add(n.func.value.id)
